@@ -32,6 +32,20 @@ CHECKS = [
         "text": "Generated-input search over all four control x calibration combinations, 0..3 sensors of 1..4 readings and both CSE settings: the generated header/source must compile and every entry of the model, both Jacobians, sensor predictions/Jacobians and both noise matrices must equal the independent reference in the slot its name designates. Exploration; C++ programs are sampled (a compile per program).",
         "note": "Compiles against a vendored Eigen-shaped stand-in with g++ 12 (Eigen and Bazel are absent); identifier-safe names; dt symbol named dt; <=4 states.",
     },
+    {
+        "property_id": "C06",
+        "cpp": True,
+        "technique": "property-based testing (Hypothesis) + exhaustive enumeration of bit-exact boundary constructions: exact rational NIS oracle; differential Python / C++ helper / generated C++",
+        "text": "Decision functions are driven with generated (m, k, S^-1, y) incl. innovations placed at tau*T and an enumerated family of constructions with NIS exactly equal to the threshold +-j ulp, against an exact rational oracle; the Python filter and the compiled generated C++ filter are driven with readings targeted on both sides of the threshold and with filtering disabled, checking that a discard returns the inputs unchanged while still recording the innovation. Exploration + a completely enumerated boundary sub-domain.",
+        "note": "Threshold formed in doubles as k*sqrt(2m)+m by both implementations (read from the code); rounding dead-zone stated in the evidence assumptions; generated-C++ thresholds sampled; stand-in instead of Eigen.",
+    },
+    {
+        "property_id": "C07",
+        "cpp": True,
+        "technique": "differential property-based testing (Hypothesis): one generated definition through python.compile_ekf and through cpp.compile_ekf+g++; step results compared by name with each other and with a textbook mpmath EKF",
+        "text": "Generated definitions over all four control x calibration combinations, both CSE settings and enabled/disabled filtering are run through both back-ends on the same named inputs; prediction and update results, stored innovations and accept/reject decisions must agree with each other and with the reference EKF. Exploration; one compile per program.",
+        "note": "Decisions compared away from the threshold only; stand-in instead of Eigen; identifier-safe names; <=4 states.",
+    },
 ]
 
 _PENDING = "check not built yet in this revision of /verif (planned in DESIGN.md section 6)"
